@@ -15,6 +15,6 @@ Extraction Language OCaml.
 Extraction "model.ml"
   N.of_uint N.to_uint N.eqb N.ltb N.compare
   hasher_of weigher_of pred_of
-  sk_empty sk_step sk_table_list sk_sample sk_mask sk_tlen sk_size
+  sk_empty sk_step frequency sk_table_list sk_sample sk_mask sk_tlen sk_size
   urun_init ustep u_map_list
   srun_init sstep s_map_list get_ve get_info live_ves s_infos_list s_ves_list sweigh map_has_info.
